@@ -34,13 +34,22 @@
 (*   LINE  known base + a line with nu unknown cells                       *)
 (*   CORR  known base + the same unknown reflect connected nu times, the   *)
 (*         later connections being parameters correlated with the first    *)
+(*   FEW   through, reflect (one unknown, both ports), single reflect with *)
+(*         a second unknown: 4 + 2 + 1 equations for 7 error terms and 2   *)
+(*         parameters -- too few standards                                 *)
+(*   WEAK  REFL with every receiver reading 1e-100 times the signal (a     *)
+(*         badly scaled but consistent instrument)                         *)
+(*   PRIOR one port: short, open and a reflect whose parameter is          *)
+(*         correlated with a known value (its truth): the error terms are  *)
+(*         exactly determined and the parameter is held by its prior only  *)
 (***************************************************************************)
 EXTENDS Naturals, FiniteSets
 
 Types    == {"T8", "U8", "TE10", "UE10", "T16", "U16", "UE14", "E12"}
 EightTen == {"T8", "U8", "TE10", "UE10"}
 Sixteen  == {"T16", "U16"}
-Topos    == {"TRL", "TRLX", "SOLR", "REFL", "SREF", "LINE", "CORR"}
+Topos    == {"TRL", "TRLX", "SOLR", "REFL", "SREF", "LINE", "CORR", "FEW",
+             "WEAK", "PRIOR"}
 Limits   == {1, 2, 3, 5, 30, 100}
 TolExps  == {4, 6, 8, 10, 12}
 TolPairs == {<<e, e>> : e \in TolExps} \cup
@@ -48,15 +57,17 @@ TolPairs == {<<e, e>> : e \in TolExps} \cup
 LadderExps == <<4, 6, 8, 10, 12>>
 
 UnknownsOf(topo) ==
-    CASE topo \in {"TRL", "TRLX"} -> {2}
-      [] topo = "SOLR"            -> {1}
-      [] topo = "CORR"            -> {2, 3}
+    CASE topo \in {"TRL", "TRLX", "FEW"} -> {2}
+      [] topo \in {"SOLR", "PRIOR"} -> {1}
+      [] topo \in {"CORR", "WEAK"} -> {2, 3}
       [] OTHER                    -> {1, 2, 3}
 
 (* which (type, ports, family) combinations exist *)
 Shape(ty, p, topo) ==
     /\ ty \in Types /\ p \in 1..3 /\ topo \in Topos
-    /\ topo \in {"TRL", "TRLX"} => ty \in EightTen /\ p = 2
+    /\ topo \in {"TRL", "TRLX", "FEW"} => ty \in EightTen /\ p = 2
+    /\ topo = "WEAK" => p <= 2
+    /\ topo = "PRIOR" => p = 1
     /\ topo = "SOLR" => ty \in EightTen /\ p = 2
     /\ topo = "LINE" => p >= 2
     /\ p = 3 => ty \notin Sixteen
@@ -88,6 +99,31 @@ Analytic(c) == c.topo = "TRL" /\ c.me = 0
 (* error, which the property allows ("failing with a convergence error     *)
 (* rather than hanging").  pt, et: the tolerances of the solve in question *)
 (* (the tolerance ladder re-solves the same data under other tolerances).  *)
+(* With measurement-error modelling the weights (V matrices) are recomputed *)
+(* from each iteration's error terms, so the cost the loop compares is not  *)
+(* one fixed function and the loop may find no better point: failing to    *)
+(* converge is then documented behaviour; success is not demanded.         *)
+(* Nothing is promised about badly scaled readings (WEAK) except a clean   *)
+(* return.                                                                 *)
 MustSucceedAt(c, pt, et) ==
-    Analytic(c) \/ (c.lim >= 30 /\ pt <= 6 /\ et <= 6)
+    Analytic(c) \/ (c.lim >= 30 /\ pt <= 6 /\ et <= 6 /\ c.me = 0 /\
+                    c.topo \notin {"FEW", "WEAK", "PRIOR"})
+
+(* vnacal_new(3) ERRORS, EDOM: "Too few measured standards were given"     *)
+UnderDetermined(c) == c.topo = "FEW"
+
+(* Every table configuration is identifiable and well conditioned by       *)
+(* construction (the oracle's error networks are diagonally dominant, the  *)
+(* known base over-determines the error terms): the only legitimate reason *)
+(* for an iterative solve to fail is that it did not converge within the   *)
+(* limit -- never a "singular system".                                     *)
+(* With measurement-error modelling there is one more: the loop converged  *)
+(* (to the configured tolerance) but the residual that remains is judged   *)
+(* against the declared noise by the p-value test, which may reject a      *)
+(* loosely converged solution when the declared noise is smaller than the  *)
+(* tolerance.                                                              *)
+LegitimateFailure(c, lastExit) ==
+    \/ lastExit = "limit"
+    \/ c.topo = "WEAK" /\ lastExit = "singular"
+    \/ c.me = 1 /\ lastExit = "ok"
 =============================================================================
